@@ -140,7 +140,7 @@ CHECKS = {
     ),
     "C15": dict(
         level="exploration",
-        rule=("scenario = master with two associations on one channel; 1-3 user tasks (read single/multi-fragment, direct operate, select+operate, non-LAN time sync, restart, dead-band write, empty-response request); for each the harness (as outstation) sends a stream of 0-4 unacceptable fragments "
+        rule=("scenario = master with two associations on one channel; 1-3 user tasks (read single/multi-fragment, direct operate, select+operate, non-LAN time sync, restart, dead-band write, empty-response request, file info, file read [open / block / close steps]); for each the harness (as outstation) sends a stream of 0-4 unacceptable fragments "
               "{wrong sequence, wrong source (other association / unknown), solicited with UNS, illegal FIR/FIN/CON for the position, IIN2 rejection, unsolicited (null/data), duplicate unsolicited, truncated objects, unknown object} optionally followed by the faithful answer; "
               "distinct = (task kind, fragment class, fragment position, CON) tuples in which the acceptance/confirm/delivery rules were evaluated"),
         runs=[dict(check="c15", scale=10, timeout_s=900)],
